@@ -137,4 +137,38 @@ XformSeq(ks, i, cbs, acc, log) ==
     ELSE LET r == Xform(ks[i], cbs) IN XformSeq(ks, i + 1, cbs, Append(acc, r[1]), log \o r[2])
 
 BottomUp(root, cbs) == Xform(Expand(root), cbs)
+
+(* ---- the same rewrite with ORIGINS: which input node each result object stands for ---- *)
+\* Every object carries a 4th component: the identity (path) of the input node whose position metadata it must
+\* carry, or <<"own">> when a callback returned an object that has metadata of its own.  A parent that is rebuilt
+\* because a child changed (_replace copies the metadata), and a replacement object without metadata (the callback
+\* chain copies the metadata of the node it replaces), stand for the node they were made from.
+RECURSIVE ExpandO(_, _)
+ExpandO(t0, path0) ==
+    LET r == Res(t0, path0)  t == r[1]  path == r[2] IN
+    CASE t[1] = "leaf" -> <<"leaf", t[2]>>
+      [] t[1] = "obj" -> <<"obj", t[2], [i \in 1..Len(t[3]) |-> ExpandO(t[3][i], Append(path, i))], path>>
+      [] t[1] \in {"list", "tuple"} -> <<t[1], [i \in 1..Len(t[2]) |-> ExpandO(t[2][i], Append(path, i))]>>
+      [] t[1] = "dict" -> <<"dict", [i \in 1..Len(t[2]) |-> <<t[2][i][1], ExpandO(t[2][i][2], Append(path, i))>>]>>
+
+ApplyCbO(cb, v) ==
+    IF v[1] # "obj" THEN v
+    ELSE CASE cb = "id" -> v
+           [] cb = "Acopy" -> IF v[2] = "A" THEN <<"obj", "A", v[3], <<"own">>>> ELSE v     \* the copy is tagged: metadata of its own
+           [] cb = "AtoZ" -> IF v[2] = "A" THEN <<"obj", "Z", <<>>, v[4]>> ELSE v            \* fresh object: inherits the origin
+           [] cb = "Bswap" -> IF v[2] = "B" THEN <<"obj", "B", <<v[3][2], v[3][1]>>, v[4]>> ELSE v
+           [] cb = "Achild" -> IF v[2] = "A" THEN v[3][1] ELSE v
+           [] cb = "Zleaf" -> IF v[2] = "Z" THEN <<"leaf", "none">> ELSE v
+           [] cb = "Blist" -> IF v[2] = "B" THEN <<"list", v[3]>> ELSE v
+
+RECURSIVE ApplyCbsO(_, _, _)
+ApplyCbsO(cbs, i, v) == IF i > Len(cbs) THEN v ELSE ApplyCbsO(cbs, i + 1, ApplyCbO(cbs[i], v))
+
+RECURSIVE XformO(_, _)
+XformO(t, cbs) ==
+    CASE t[1] = "list" -> <<"list", [i \in 1..Len(t[2]) |-> XformO(t[2][i], cbs)]>>
+      [] t[1] = "obj" -> ApplyCbsO(cbs, 1, <<"obj", t[2], [i \in 1..Len(t[3]) |-> XformO(t[3][i], cbs)], t[4]>>)
+      [] OTHER -> t
+
+BottomUpO(root, cbs) == XformO(ExpandO(root, <<>>), cbs)
 =============================================================================
